@@ -222,15 +222,23 @@ def check_writer_roundtrip(ctx, index):
     limit_case = None
     if index % 10 == 3:
         # at the limits of the workbook format: what cannot be stored must be refused by the writer, not cut off
-        limit_case = rng.choice(["cell-32767", "cell-32768", "row-16384", "row-16385", "surrogate"])
+        # (the five kinds in turn, so that also a short run sees each of them)
+        limit_case = ["cell-32767", "cell-32768", "row-16384", "row-16385", "surrogate"][(index // 10) % 5]
         position = rng.randrange(len(table))
+        if len(table[position]) < 2:
+            table[position].append("x")
+        # (the offending cell is the last one of its row: cells before it must not stay behind when the row is refused)
         if limit_case == "surrogate":
             # a string the workbook (UTF-8 encoded XML) cannot hold
-            table[position][rng.randrange(len(table[position]))] = "a\udcffb"
+            table[position][-1] = "a\udcffb"
         elif limit_case.startswith("cell"):
-            table[position][rng.randrange(len(table[position]))] = "x" * int(limit_case[5:])
+            table[position][-1] = "x" * int(limit_case[5:])
         else:
             table[position] = ["c"] * int(limit_case[4:])
+        if position == len(table) - 1:
+            table.append(["after", "the", "limit"])  # what is written after a refused row has to end up where it belongs
+        if position == 0:
+            table.insert(0, ["before", "the", "limit"])  # ... and something has to be accepted at all for a read-back
         case = {"table": "regenerated from the seed", "via": "XlsxRowWriter", "limit": limit_case, "index": index}
         ctx.count("writer.roundtrips-at-format-limits")
     ctx.case(case, True)
